@@ -10,6 +10,7 @@ import FontVerif.Model.Field
 import FontVerif.Model.ValueRecord
 import FontVerif.Model.NameStr
 import FontVerif.Gen.WriteProgs
+import FontVerif.Drv.TableWriter
 namespace FontVerif.Drv.C04
 open FontVerif FontVerif.Field
 
@@ -180,6 +181,6 @@ def handle (cmd : String) (args : List String) : Option String :=
     match parseHex? hex, args.mapM parseNat? with
     | some bs, some as => some (rt ty bs as)
     | _, _ => none
-  | _, _ => none
+  | _, _ => FontVerif.Drv.TableWriter.handle cmd args  -- tw.*: the C04 ⇄ C05 bridge (Drv/TableWriter.lean)
 
 end FontVerif.Drv.C04
